@@ -1010,7 +1010,7 @@ void* _mi_malloc_generic(mi_heap_t* heap, size_t size, bool zero, size_t huge_al
 
   // find (or allocate) a page of the right size
   mi_page_t* page = mi_find_page(heap, size, huge_alignment);
-  if mi_unlikely(page == NULL) { // first time out of memory, try to collect and retry the allocation once more
+  if mi_unlikely(page == NULL && (size - MI_PADDING_SIZE) <= MI_MAX_ALLOC_SIZE) { // first time out of memory (and not just a too large request), try to collect and retry the allocation once more
     mi_heap_collect(heap, true /* force */);
     page = mi_find_page(heap, size, huge_alignment);
   }
